@@ -16,6 +16,14 @@ CHECKS = {
  'C03': ('exploration', 'differential against an independent reference codec interpreting a hand-written layout table, both directions, byte-exact',
          'Held on the executions explored (same workload as C01, each optional field additionally alone for attribution). The layout table is the second statement of the specification; agreement is checked, not proved.',
          'trusts the layout table harness/refcodec/src/layout_zvt.txt as the statement of the ZVT/Feig specification', '8 C03, 5.2, Appendix A'),
+ 'C04': ('exploration', 'trace checker over an instrumented in-memory stream driven by a hand-written poll loop (all partitions into read results, Pending wake-ups, every end-of-stream position) with an independent framing rule as oracle',
+         'Exhaustive for the header agreement (all body lengths 0..65535) and for all chunkings x EOF positions of all packet sequences up to the stated total length; longer sequences and 64 KiB bodies sampled.', 'trusts the independent framing rule in c04.rs and the scripted stream', '8 C04, 6, D.2'),
+ 'C05': ('exploration', 'offline trace checker over the scripted terminal\'s byte-exact event log (gated replies, abstract log equality) with an independent table of reply sets / final packets',
+         'Bounded-exhaustive over reply scripts in variant names up to the stated depth for all 18 streams, each letter instantiated with several canonical values; random scripts to depth 40.', 'trusts the reply-set/final-packet table (DESIGN Appendix B), the reference encoder for replies and the decoder bridge for commands', '8 C05, 6, D.1'),
+ 'C06': ('fault_enumeration', 'fault injection at every position of scripted exchanges (NACK, foreign control field, malformed body, truncation at every offset, EOF) with a trace checker over the event log',
+         'Every valid prefix up to the stated depth x every fault kind x every position (ack position included) x every truncation offset for all 18 streams.', 'malformed bodies restricted to those whose rejection follows from C02/C13', '8 C06, 6, D.1'),
+ 'C11': ('exploration', 'scripted terminal + reference codec as oracle over real files created by the harness; trace checker over the event log',
+         'Held on the uploads explored (thousands of directories x block sizes x request scripts incl. invalid requests); sampled.', 'trusts the reference encodings of announcement / request / data block in seq.rs (WfCodec)', '8 C11, D.1'),
  'C13': ('exploration', 'structure-aware mutation of reference chunk trees (all permutations <= 6 groups, duplicates, removals, foreign tags) with the reference decoder on the same bytes as oracle',
          'Held on the mutants explored; permutations exhaustive per node up to 6 present groups, sampled above.', 'trusts the reference decoder; claims weakened inside repeated / positional-optional scopes as stated in DESIGN', '8 C13'),
  'C14': ('exploration', 'suffix / sibling injection on reference chunk trees with the reference decoder on the same bytes as oracle',
